@@ -64,6 +64,12 @@ def vfold {σ : Type} (f : σ → Rat → σ) (init : σ) (xs : List (Option Rat
     | some x => f acc x
     | none => acc) init
 
+/-- `vfold(init, f)` over boolean elements (`T::Inner: BoolType`) -/
+def vfoldB {σ : Type} (f : σ → Bool → σ) (init : σ) (xs : List (Option Bool)) : σ :=
+  xs.foldl (fun acc v => match v with
+    | some x => f acc x
+    | none => acc) init
+
 /-- `v >= max` where `max` is either a stored value or still the sentinel `T::MIN` (`none`) -/
 def geS (v : Rat) : Option Rat → Bool
   | none => true
@@ -113,5 +119,33 @@ def windows : List Rat → List (Rat × Rat)
 
 /-- `iter.enumerate()`: `(index, item)` pairs from 0 -/
 def enumerate {α : Type} (l : List α) : List (Nat × α) := (List.range l.length).zip l
+
+/-! ### imperative `usize` bookkeeping (translator/finals.py) -/
+
+/-- outcome of a run with `while` loops and checked `usize` subtraction -/
+inductive Run (α : Type) where
+  | ok (a : α)
+  | panic
+  | timeout
+deriving DecidableEq, Repr
+
+/-- `while cond(s) { s = body(s); }` with fuel: `guard s` is "no `usize` subtraction of the
+condition underflows" (false: `panic`), the flag returned by `body` is `break`, running out of
+fuel is `timeout` -/
+def whileFuel {σ : Type} (guard cond : σ → Bool) (body : σ → σ × Bool) : Nat → σ → Run σ
+  | 0, _ => .timeout
+  | fuel + 1, s =>
+    if guard s then
+      if cond s then
+        let r := body s
+        if r.2 then .ok r.1 else whileFuel guard cond body fuel r.1
+      else .ok s
+    else .panic
+
+/-- float comparisons against a finite literal: false on NaN (`none`) -/
+def fLe (a : Option Rat) (b : Rat) : Bool := match a with | some x => decide (x ≤ b) | none => false
+def fLt (a : Option Rat) (b : Rat) : Bool := match a with | some x => decide (x < b) | none => false
+def fGe (a : Option Rat) (b : Rat) : Bool := match a with | some x => decide (x ≥ b) | none => false
+def fGt (a : Option Rat) (b : Rat) : Bool := match a with | some x => decide (x > b) | none => false
 
 end Tv.Gen
